@@ -1115,11 +1115,16 @@ def to_life_acts(obs):
             lock.add(th)
             act(th, 'lock')
         elif kind == 'lk.rel' and e[2] == '_lock':
-            if th in in_cx:
+            raised = th in in_cx
+            if raised:
                 in_cx.discard(th)
                 act(th, 'cx', 1)
             lock.discard(th)
             act(th, 'unlock')
+            if raised and th[0] == 'c' and th != 'closer':
+                # the connect() of a user's request raised: the request is over for the life-cycle model (the thread may still
+                # collect the replies to requests it had queued before: get_reply, the matching model's)
+                gone.add(th)
         elif kind == 'c.new':
             act(th, 'cnew', 0 if e[2] else 1)
             if not e[2]:
@@ -1652,6 +1657,8 @@ CONN_CATALOGUE = [
     ['peerRst:linger', 'disconnect'],
     ['peerFin', 'shutdown', 'shutdown'],
     ['peerSend', 'peerSend', 'readline', 'peerRst:unread', 'readline', 'readline', 'shutdown', 'disconnect'],
+    # ---- a complete line still in the buffer when the connection object is closed locally
+    ['peerSend', 'peerSend', 'send', 'readline', 'disconnect', 'peerSend', 'shutdown', 'readline', 'readline'],
     # ---- a line arriving in segments, with pauses longer than the inter-byte time-out (readline returns None in between)
     ['peerPart', 'readline', 'peerSend', 'readline', 'readline'],
     ['peerSend', 'peerPart', 'readline', 'readline', 'peerPart', 'readline', 'peerSend', 'peerSend', 'readline', 'readline', 'readline'],
@@ -1760,6 +1767,8 @@ META = {
     'level_text': 'Five models of the repaired SecopClient, theorems for all reachable states (any number of callers, requests, '
                   'lines, any interleaving, disconnects at any point).  (1) matching LTS, one action per shared access of caller, '
                   'tx, rx and disconnecting threads: reply_matches_partial (known actions), no_double_delivery, no_parking, '
+                  'no_spurious_release (while no shutdown / loss has begun no event is set without a reply: no caller leaves '
+                  'get_reply with a connection error on a healthy connection), '
                   'no_lost_request (every queued request is still in the machinery or its caller is answered / released / timed out; '
                   'the keys of active_requests are pairwise different), disconnect_releases_all and '
                   'disconnect_leaves_nobody_waiting (a lone disconnect can run to its end, releases every queued/filed/parked '
@@ -1770,7 +1779,9 @@ META = {
                   'shutdown_terminates (deadlock-freedom after any shutdown request: user, peer, failing send, or several).  '
                   '(4) connection object (one TCP endpoint: peer lines / FIN / RST, client readline / send / shutdown / disconnect): '
                   'conn_contract (shutdown and disconnect never raise, readline raises nothing but ConnectionClosed and does so '
-                  'on a dead connection, only lines the peer sent are returned).  (5) life cycle across connections (threads as '
+                  'on a dead connection, only lines the peer sent are returned, None only when no complete line is waiting), '
+                  'lines_in_order (lines arriving whole or in segments with pauses longer than the inter-byte time-out: what readline '
+                  'hands out is exactly the sequence of lines sent, nothing lost, garbled or reordered).  (5) life cycle across connections (threads as '
                   'records: user disconnect()/request(), tx/rx workers behind their start gate, reconnect threads with cancel events '
                   'and registry; connect() with _lock, queue replacement, _shutdown.clear(), AsynConn accepted/refused, registration '
                   'of the workers; disconnect(shutdown) with its locals; one step per shared access, ~110 program points): '
@@ -1782,7 +1793,11 @@ META = {
                   'txthread.join(): proved for every continuation without a fault of the environment), '
                   'older_reconnect_connects_after_shutdown, no_worker_in_loop_fails.  Models (1), (3) and (5) are replayed '
                   'against every (attribute-level) run of the real client under a deterministic scheduler, model (4) against real '
-                  'AsynTcp objects on loopback sockets and against the scripted FakeConn; the Lean monitors judge every run.',
+                  'AsynTcp objects on loopback sockets and against the scripted FakeConn; the Lean monitors judge every run '
+                  '(per caller: own reply / released / spurious connection error judged at the state in which it returned / late / '
+                  'needless time-out: the reply to its own request was readable 1.5 s before its time-out ran out).  Scenarios '
+                  'include threads with several requests in a row or outstanding at once, and the handshake of connect() with a '
+                  'node that answers late, never, or with an error (connect() judged as the caller of its set-up requests).',
     'level_note': 'Trusted: Lean kernel + propext/Classical.choice/Quot.sound; queue.Queue / Event / RLock / join semantics are '
                   'those of vlib.sched (modelled, not verified); sections under the request lock are atomic in the model; the '
                   'conversion of the effect log to labels (harness) and the JSON glue.  Model (2) is tied to the source by '
@@ -1795,7 +1810,9 @@ META = {
     'trusted': [
         'vlib.sched primitives behave like threading/queue (one thread runs at a time, yield before every primitive)',
         'code executed under SecopClient._request_lock is atomic with respect to the other sections under that lock',
-        'the effect-log -> label conversion in harness/props/c11.py (checked by the replay: every label must be enabled)',
+        'the effect-log -> label conversion in harness/props/c11.py (checked by the replay: every label must be enabled); entries are '
+        'identified by object identity, the event an entry carries is looked up when an event is set',
+        'NeedlessTimeout: the ready times of the lines are those of the scripted peer (virtual time); margin 1.5 s',
         'life-cycle model: every shared access of connect()/disconnect()/the workers/the reconnect threads is a yield point or a '
         'logged effect of the attribute-level runs (attributes io, _txthread, _rxthread, _running, _connthread, _cancel_reconnect, the '
         'registry, queues, events, locks, joins); reads of self.txq / self.pending are not yield points (the queue object used is '
@@ -1812,6 +1829,10 @@ META = {
         'decode_msg / encode_msg_frame, the cache update of update-class messages, callbacks',
         'a connect() nested in connect() (the set-up request finds self.io gone): the life-cycle replay ends there',
         'timed layer: transcribed from the source, not replayed against runs',
+        'connect() before its workers run (identification, the except arm) on handshake cases: judged by the monitors and replayed on '
+        'the matching model only (the shutdown and life-cycle replays start after a completed connect())',
+        'AsynConn.readline with a time-out argument (the identification of connect(), frappy.io): only the no-time-out path of the '
+        'rx thread is replayed with segmented lines',
     ],
     'assumptions': ['request identifiers are not "." (the rx thread maps "." to None)',
                     'replies carry no request id: a line that matches syntactically and arrives while the request is filed is its '
